@@ -245,13 +245,18 @@ func main() {
 	r.Cases("finddp/wide", r.N(1000, 30000), hv, findDpCase(true))
 	r.Cases("cliques/brute", r.N(100000, 2000000), hv, cliqueCase(false))
 	r.Cases("cliques/wide", r.N(800, 4000), hv, cliqueCase(true))
-	r.Cases("knapsack/big", r.N(160, 3000), hv, bigKnapsackCase)
-	r.Cases("finddp/big", r.N(120, 2000), hv, bigFindDpCase)
-	r.Cases("cliques/big", r.N(300, 4000), hv, bigCliqueCase)
+	if !r.HasViolations() || r.IsReplay() {
+		// the big instances are only worth their cost (and, on a broken tree, their
+		// memory: a list that is not reset grows with every recycling) while the
+		// verdict is still open
+		r.Cases("knapsack/big", r.N(160, 3000), hv, bigKnapsackCase)
+		r.Cases("finddp/big", r.N(120, 2000), hv, bigFindDpCase)
+		r.Cases("cliques/big", r.N(300, 1500), hv, bigCliqueCase)
+	}
 	r.Cases("cliques/labels", r.N(8000, 150000), hv, labelCase)
 	r.Cases("cliques/grow", r.N(30000, 600000), hv, growCase)
 	r.Cases("knapsack/hugevalues", r.N(6000, 150000), hv, hugeValueKnapsackCase)
-	r.Cases("finddp/hugelimit", r.N(3000, 100000), hv, hugeCase(false))
+	r.Cases("finddp/hugelimit", r.N(3000, 60000), hv, hugeCase(false))
 	r.Cases("session/serial", r.N(6000, 150000), ev.Opt{HangViolation: true, MaxCaseSeconds: 60, Serial: true}, sessionCase)
 	r.Cases("finddp/overflow", r.N(6000, 150000), hv, hugeCase(true))
 
